@@ -296,6 +296,39 @@ pub fn dispatch(p: &[String]) -> String {
                 _ => "{\"error\": \"unknown table\"}".to_string(),
             }
         }
+        "select_by_name" => {
+            // select_by_name <function index or -> <block index or -> <name>: two finished functions "a" (two blocks) and "b" (one
+            // block), a name "c" on a non-function id, and a second, later name "b" on function 0 (the first match wins)
+            let mut b = rspirv::dr::Builder::new();
+            let void = b.type_void();
+            let fty = b.type_function(void, vec![]);
+            let mut fids = Vec::new();
+            for nb in [2usize, 1] {
+                let f = b.begin_function(void, None, spirv::FunctionControl::NONE, fty).unwrap();
+                for _ in 0..nb {
+                    b.begin_block(None).unwrap();
+                    b.nop().unwrap();
+                    b.ret().unwrap();
+                }
+                b.end_function().unwrap();
+                fids.push(f);
+            }
+            b.name(fids[0], "a");
+            b.name(fids[1], "b");
+            b.name(void, "c");
+            b.name(fids[0], "b");
+            let idx = |s: &str| s.parse::<usize>().ok();
+            let r0 = b.select_function(idx(&p[1]));
+            let r1 = b.select_block(idx(&p[2]));
+            let r = b.select_function_by_name(&p[3]);
+            let (sf, sb) = (b.selected_function(), b.selected_block());
+            let nblocks = sf.map(|f| b.module_ref().functions[f].blocks.len());
+            // the selection must be usable: a block instruction goes where the selection points
+            let usable = match (sf, sb) { (Some(_), Some(_)) => b.nop().is_ok(), _ => true };
+            format!("{{\"setup_ok\": {}, \"result\": {}, \"sel_f\": {}, \"sel_b\": {}, \"nblocks\": {}, \"usable\": {}}}", r0.is_ok() && r1.is_ok(),
+                    jstr(&format!("{:?}", r)), sf.map_or("null".to_string(), |x| x.to_string()), sb.map_or("null".to_string(), |x| x.to_string()),
+                    nblocks.map_or("null".to_string(), |x| x.to_string()), usable)
+        }
         "reflect" => {
             use rspirv::grammar::reflect as r;
             let n = p[2].parse::<u32>().unwrap();
